@@ -450,7 +450,7 @@ def r5(ctx):
     for f, blk in ((m, bm), (t, bt)):
         key = f"{f.key}:platform-selection"
         tbl = _rv.block_table([blk], fi=f)
-        n_sel = n_skip = 0
+        n_sel = n_skip = n_bad = 0
         for p in tbl:
             at = {_vt(k): v for k, v in p.atoms.items()}
             its = [mm.group(1) for k, v in p.atoms.items() for mm in [re.match(r"more\((.+\['platform'\]\.items\(\))#L\d+,0\)$", _vt(k))] if mm and v]
@@ -465,7 +465,9 @@ def r5(ctx):
                 raise AnalysisError(f"{f.key}: the test whether -p was given is not recognised: {p.describe()[-200:]}")
             selected = (not given) or bool(named)
             if given and named is None:
-                ctx.violation(key, "with -p given, a platform of the analysis file is processed without asking whether -p names it", f.loc(blk))
+                alt = [k for k in at if N in k and "args.platforms" in k and not k.startswith("more(")]
+                ctx.violation(key, f"with -p given, a platform of the analysis file is selected by `{alt[0][-110:]}` instead of by membership of its name in the -p list: a platform whose name merely resembles a requested one is analysed too (or a requested one is not)" if alt else "with -p given, a platform of the analysis file is processed without asking whether -p names it", f.loc(blk))
+                n_bad += 1
                 continue
             if p.result[0] == "raise":
                 continue
@@ -476,7 +478,7 @@ def r5(ctx):
             else:
                 n_skip += 1
                 ctx.check(not loads, key, f"a platform that -p does not name is loaded all the same: {loads}", f.loc(blk))
-        if not (n_sel and n_skip):
+        if not (n_sel and n_skip) and not n_bad:
             raise AnalysisError(f"{f.key}: platform selection idiom not recognised (selected {n_sel}, skipped {n_skip})")
         # skipping one platform must not end the walk over the others (two platforms unrolled)
         try:
